@@ -31,6 +31,10 @@ func Harness_C16_exact_collinear_order_independent() {
 	// nonlinear real arithmetic: one back end (z3 5.1.0) decides these queries, the others do not
 	// answer within the thorough budget, so the first definitive answer decides in both tiers
 	vr.FirstAnswer()
+	// the final rounding of the exact result to float64 is modelled with relative error only (no
+	// subnormal result coordinates); with the subnormal slack term the path conditions of this
+	// harness take 3-4 times longer to decide and the harness exceeds its time budget
+	vr.NoUnderflow()
 	vr.Stub("RobustSign", "vrstub_C16_RobustSign")
 	a0, a1, b0, b1 := vrPlanePoint("a0"), vrPlanePoint("a1"), vrPlanePoint("b0"), vrPlanePoint("b1")
 	// valid edges: endpoints neither identical nor antipodal (non-zero edge normals)
